@@ -223,6 +223,24 @@ class SymList(list):
         return tm.add(lift(self.stacked_len), tm.const(len(self) - 1, 'I'))
 
 
+class SymStack(SymList):
+    """like SymList, for lists consumed by `torch.stack(list)` (dim 0): the first `stacked_len` logical elements are the rows
+    stacked[k] of one tensor of shape (stacked_len, *element_shape); items appended afterwards are ordinary physical items."""
+    pfv_stack = True
+
+    def __getitem__(self, k):
+        raise Unsupported('indexing a stacked list of symbolic length')
+
+    def elem(self, k, idx=()):
+        """element term of logical item k at index idx"""
+        phys = list(list.__iter__(self))
+        L = lift(self.stacked_len)
+        val = phys[0].at((k,) + tuple(idx))
+        for j_, it in enumerate(phys[1:]):
+            val = tm.ite(tm.lt(k, tm.add(L, tm.const(j_, 'I'))), val, it.at(tuple(idx)))
+        return val
+
+
 def list_len(x):
     """logical length (term) of a plain list or a SymList"""
     return x.logical_len() if isinstance(x, SymList) else tm.const(len(x), 'I')
@@ -398,12 +416,29 @@ class _DesugarListComp(ast.NodeTransformer):
         node.body = self._block(node.body)
         return node
 
+    @staticmethod
+    def _pure_callee(f):
+        while isinstance(f, ast.Attribute):
+            f = f.value
+        return isinstance(f, ast.Name)
+
     def _block(self, stmts):
         out = []
         for st in stmts:
             for fld in ('body', 'orelse', 'finalbody'):
                 if isinstance(getattr(st, fld, None), list) and not isinstance(st, (ast.FunctionDef, ast.ClassDef)):
                     setattr(st, fld, self._block(getattr(st, fld)))
+            if (isinstance(st, ast.Assign) and len(st.targets) == 1 and isinstance(st.targets[0], ast.Name) and isinstance(st.value, ast.Call)
+                    and len(st.value.args) == 1 and not st.value.keywords and isinstance(st.value.args[0], ast.ListComp) and self._pure_callee(st.value.func)):
+                # `x = f([elt for v in it])`: the comprehension is the first thing evaluated (the callee expression is a plain dotted name),
+                # so it may be hoisted into `pfv_lcN = [elt for v in it]; x = f(pfv_lcN)` and then desugared like any other
+                self._nlc = getattr(self, '_nlc', 0) + 1
+                tmp = 'pfv_lc%d' % self._nlc
+                hoisted = ast.Assign([ast.Name(tmp, ast.Store())], st.value.args[0])
+                st.value.args[0] = ast.Name(tmp, ast.Load())
+                out.extend(self._block([hoisted]))
+                out.append(st)
+                continue
             lc = st.value if (isinstance(st, ast.Assign) and len(st.targets) == 1 and isinstance(st.targets[0], ast.Name) and isinstance(st.value, ast.ListComp)) else None
             if lc is not None and len(lc.generators) == 1 and not lc.generators[0].ifs and not lc.generators[0].is_async and isinstance(lc.generators[0].target, ast.Name):
                 v = lc.generators[0].target.id
@@ -429,6 +464,57 @@ def _assume_range(self, k, v, rng):
 
 
 _Runtime.assume_range = _assume_range
+
+
+def appended_names(fn):
+    """names of the lists that the loops of fn (after comprehension desugaring) grow by `.append`, in loop order:
+    [(loop ordinal, list name), ...] - lets a loop spec name the list without depending on how the source spells it"""
+    fn0 = inspect.unwrap(fn)
+    tree = ast.parse(textwrap.dedent(inspect.getsource(fn0)))
+    tree = _DesugarListComp().visit(copy.deepcopy(tree))
+    out = []
+    ordinal = -1
+
+    def rec(stmts):
+        nonlocal ordinal
+        for st in stmts:
+            if isinstance(st, (ast.FunctionDef, ast.ClassDef)):
+                continue
+            if isinstance(st, (ast.For, ast.While)):
+                ordinal += 1
+                k = ordinal
+                for sub in ast.walk(st):
+                    if isinstance(sub, ast.Call) and isinstance(sub.func, ast.Attribute) and sub.func.attr == 'append' and isinstance(sub.func.value, ast.Name):
+                        if (k, sub.func.value.id) not in out:
+                            out.append((k, sub.func.value.id))
+            for fld in ('body', 'orelse', 'finalbody'):
+                if isinstance(getattr(st, fld, None), list):
+                    rec(getattr(st, fld))
+    rec(tree.body[0].body)
+    return out
+
+
+def loop_var(fn, ordinal):
+    """name of the target of the `for` loop number `ordinal` of fn (after comprehension desugaring)"""
+    fn0 = inspect.unwrap(fn)
+    tree = ast.parse(textwrap.dedent(inspect.getsource(fn0)))
+    tree = _DesugarListComp().visit(copy.deepcopy(tree))
+    found = []
+
+    def rec(stmts):
+        for st in stmts:
+            if isinstance(st, (ast.FunctionDef, ast.ClassDef)):
+                continue
+            if isinstance(st, (ast.For, ast.While)):
+                found.append(st)
+            for fld in ('body', 'orelse', 'finalbody'):
+                if isinstance(getattr(st, fld, None), list):
+                    rec(getattr(st, fld))
+    rec(tree.body[0].body)
+    st = found[ordinal]
+    if not isinstance(st, ast.For) or not isinstance(st.target, ast.Name):
+        raise Unsupported('loop %d is not a for-loop over a simple name' % ordinal)
+    return st.target.id
 
 
 def cut(fn, loops, stubs=None, extra_globals=None):
